@@ -4,7 +4,7 @@ scratch worktree of /repo's HEAD and runs the checks that are supposed to catch 
 tools/try_tree.sh. Usage: rehearse.py [name-substring ...]   (results appended to notes/rehearsal.log)"""
 import subprocess, sys, os, re, json, time
 
-WT = "/tmp/rehearse_wt"
+WT = "/tmp/rehearse_wt_%d" % os.getpid()
 ENV = dict(os.environ, GOFLAGS="-mod=mod", GOPROXY="off", GOSUMDB="off", GOTOOLCHAIN="local")
 
 # (name, file, old, new, [checks expected to fire], count of occurrences to replace (0=all))
